@@ -17,6 +17,8 @@ func run(s *kernel.Sim, prop, cfg string) {
 		runC03(s, cfg)
 	case "C06":
 		runC06(s, cfg)
+	case "C07":
+		runC07(s, cfg)
 	case "C08":
 		runC08(s, cfg)
 	case "C18":
